@@ -3,32 +3,38 @@
 # 1. demo must pass on /repo HEAD and fail with the patch; 2. run the given checks with the patch applied;
 # 3. undo; copy into /verif/seeded/NAME and write meta.json. Never commits to /repo.
 name=$1; src=$2; shift 2
-cd /repo || exit 2
-test -z "$(git status --porcelain --untracked-files=no)" || { echo "/repo not clean"; exit 2; }
+# The patch is applied to a scratch worktree of /repo's HEAD (VERIF_REPO points the checks at it): builder agents
+# may be running their own checks against /repo at the same time and must not see a seeded change.
+test -z "$(git -C /repo status --porcelain --untracked-files=no)" || { echo "/repo not clean"; exit 2; }
 tmp=$(mktemp -d /root/scratch/seedrun.XXXX)
-run_demo() { (cd $tmp && PYTHONPATH=/repo timeout 600 /venv/bin/python $src/demo.py >$tmp/demo_$1.out 2>&1; echo $?); }
-clean=$(run_demo clean)
-git apply --check $src/patch.diff || { echo "patch does not apply"; rm -rf $tmp; exit 2; }
-git apply $src/patch.diff
-mut=$(run_demo mutated)
+wt=$tmp/wt
+git -C /repo worktree add --detach $wt HEAD -q || exit 2
+run_demo() { (cd $tmp && PYTHONPATH=$2 timeout 600 /venv/bin/python $src/demo.py >$tmp/demo_$1.out 2>&1; echo $?); }
+clean=$(run_demo clean /repo)
+git -C $wt apply --check $src/patch.diff || { echo "patch does not apply"; git -C /repo worktree remove --force $wt; rm -rf $tmp; exit 2; }
+git -C $wt apply $src/patch.diff
+mut=$(run_demo mutated $wt)
 results=""
 for c in "$@"; do
-  out=$(cd /verif && VERIF_SEED=${VERIF_SEED:-3} ./check $c --quick 2>&1 | grep -v '^\[redun\]' | tail -3)
+  cp /verif/evidence/$c.json $tmp/evidence_$c.json 2>/dev/null   # evidence must describe the unchanged tree: restored below
+  out=$(cd /verif && VERIF_REPO=$wt VERIF_SEED=${VERIF_SEED:-3} ./check $c --quick 2>&1 | grep -v '^\[redun\]' | tail -3)
   rc=$(echo "$out" | grep -c '^VIOLATION')
   results="$results {\"check\": \"$c\", \"violation_reported\": $rc, \"tail\": $(python3 -c 'import json,sys; print(json.dumps(sys.argv[1][-600:]))' "$out")},"
   echo "--- $c with seed $name applied:"; echo "$out"
   cp /verif/replays/${c}_quick_${VERIF_SEED:-3}.json $tmp/replay_$c.json 2>/dev/null
+  cp /verif/evidence/$c.json $tmp/evidence_seeded_$c.json 2>/dev/null
+  [ -f $tmp/evidence_$c.json ] && cp $tmp/evidence_$c.json /verif/evidence/$c.json
 done
-git checkout -- . ; git status --porcelain --untracked-files=no
+git -C /repo worktree remove --force $wt
 mkdir -p /verif/seeded/$name
 cp $src/patch.diff $src/demo.py /verif/seeded/$name/; cp $src/notes.md /verif/seeded/$name/notes.md 2>/dev/null
-for f in $tmp/replay_*.json; do [ -f "$f" ] && cp $f /verif/seeded/$name/; done
+for f in $tmp/replay_*.json $tmp/evidence_seeded_*.json; do [ -f "$f" ] && cp $f /verif/seeded/$name/; done
 python3 - "$name" "$clean" "$mut" "[${results%,}]" <<'P'
 import json, sys
 name, clean, mut, results = sys.argv[1:5]
 meta = {"seed": name, "property": name[:3], "demo_exit_on_unchanged": int(clean), "demo_exit_with_patch": int(mut),
         "confirmed": int(clean) == 0 and int(mut) != 0, "checks_run_with_patch": json.loads(results),
-        "needs_to_manifest": "see notes.md", "what_was_run": "tools/try_seed.sh: demo on /repo HEAD and with patch applied; listed checks (quick) with patch applied; patch undone afterwards"}
+        "needs_to_manifest": "see notes.md", "what_was_run": "tools/try_seed.sh: demo on /repo HEAD and on a scratch worktree of /repo HEAD with the patch applied; listed checks (quick) run with VERIF_REPO pointing at that patched worktree; worktree removed afterwards"}
 json.dump(meta, open(f"/verif/seeded/{name}/meta.json", "w"), indent=1)
 print("demo clean/mutated exit:", clean, mut)
 P
